@@ -12,9 +12,9 @@ git apply "$D/patch.diff" || { echo "patch does not apply"; exit 2; }
 cd /verif
 : > "$D/result.txt"
 for p in $PROPS; do
-  ./check $p > /tmp/seeded_$ID_$p.out 2>&1; rc=$?
+  ./check $p > /tmp/seeded_${ID}_${p}.out 2>&1; rc=$?
   echo "== $p rc=$rc" >> "$D/result.txt"
-  grep -E "^(VIOLATION|OK|TOOL-ERROR|KNOWN-FINDING|SPEC-DRIFT|  clause)" /tmp/seeded_$ID_$p.out | sed 's/replay=[^ ]*//' | sort | uniq -c | sort -rn | head -8 >> "$D/result.txt"
+  grep -E "^(VIOLATION|OK|TOOL-ERROR|KNOWN-FINDING|SPEC-DRIFT|  clause)" /tmp/seeded_${ID}_${p}.out | sed 's/replay=[^ ]*//' | sort | uniq -c | sort -rn | head -8 >> "$D/result.txt"
 done
 cd /repo && git checkout -- . && git clean -fdq
 cat "$D/result.txt"
